@@ -78,3 +78,18 @@ Definition run_rdfxml (args : list bytes) : bytes :=
       end
   | _ => ERR
   end.
+
+(* rdfxmlq: the same for documents not written by the harness: !skip where the document leaves the modelled part *)
+Definition run_rdfxmlq (args : list bytes) : bytes :=
+  match args with
+  | [b; tree] =>
+      match xstr b, parse_node (S (length tree)) (split_on 44 tree) with
+      | Some base, Some (root, []) =>
+          match rdfxml_doc base root with
+          | Some ts => join [59%N] (map triple_out ts)
+          | None => s2b "!skip"
+          end
+      | _, _ => ERR
+      end
+  | _ => ERR
+  end.
